@@ -68,7 +68,8 @@ func c03Refs(r *Run) {
 				infos[i] = "(sites)"
 			case 2:
 				// near-miss shapes: other counter word, missing paren, extra text
-				infos[i] = r.rng.pick([]string{"(bases 1 to)", "(residues 1 to 5)", "(bases 1 to 5", "(bases 1 to 5) extra", "(bases 1 to 5;6 to 7)", "(bases 01 to 5)", "(bases +1 to 5)", "(bases 1 to 5; )"})
+				infos[i] = r.rng.pick([]string{"(bases 1 to)", "(residues 1 to 5)", "(bases 1 to 5", "(bases 1 to 5) extra", "(bases 1 to 5;6 to 7)", "(bases 01 to 5)", "(bases +1 to 5)", "(bases 1 to 5; )",
+					"(bases -4 to 2)", "(bases 0 to 0)", "(bases 1 to -1)", "(bases 3 to 9; -2 to 1)", "(bases 99999999999999999999 to 5)"})
 				wellFormed = false
 			default:
 				k := r.rng.rangeInt(1, 3)
@@ -85,6 +86,14 @@ func c03Refs(r *Run) {
 						ec := []int{a, a + 1, b, b + 1}
 						e = maxInt(s, ec[r.rng.intn(4)])
 					}
+					if r.rng.intn(8) == 0 {
+						// inverted or empty range: a..a-1, or further back (the info is then kept verbatim)
+						e = s - 1 - r.rng.intn(3)
+						if e < 0 {
+							e = 0
+						}
+						r.count("slice-refs/inverted-range")
+					}
 					parts[j] = fmt.Sprintf("%d to %d", s, e)
 				}
 				infos[i] = fmt.Sprintf("(%s %s)", pref, strings.Join(parts, "; "))
@@ -98,7 +107,7 @@ func c03Refs(r *Run) {
 		out := r.op(line)
 		r.count("slice-refs")
 		if out == "PANIC" {
-			r.fail(Failure{Oracle: "slice: reference clipping never panics on well-formed ranges", Op: line, Got: out})
+			r.fail(Failure{Oracle: "slice: reference clipping never panics", Op: line, Got: out})
 			continue
 		}
 		r.eval(line, wellFormed && b > a)
@@ -114,6 +123,18 @@ func c03Refs(r *Run) {
 				continue
 			}
 			var kept []string
+			inverted := false
+			for _, part := range strings.Split(m[2], "; ") {
+				var s, e int
+				fmt.Sscanf(part, "%d to %d", &s, &e)
+				if e <= s-1 {
+					inverted = true
+				}
+			}
+			if inverted { // not a base range: kept as it is
+				want = append(want, in)
+				continue
+			}
 			for _, part := range strings.Split(m[2], "; ") {
 				var s, e int
 				fmt.Sscanf(part, "%d to %d", &s, &e)
